@@ -32,6 +32,10 @@ history = {
  'C01g':'frozen','C02g':'frozen','C03g':'after','C04g':'frozen','C05g':'frozen','C06g':'frozen-other','C07g':'after','C08g':'frozen',
  'C09g':'after','C10g':'frozen-other','C11g':'after','C13g':'after','C14g':'after','C15g':'frozen','C16g':'frozen','C17g':'after',
  'C18g':'frozen','C19g':'frozen','C20g':'after',
+ # round h: rules frozen at tag rules-frozen-before-round-i; first run in refs/round_h_first_run.txt
+ 'C01h':'frozen','C02h':'frozen-other','C03h':'frozen-other','C04h':'frozen','C05h':'frozen','C06h':'frozen','C07h':'frozen','C08h':'frozen',
+ 'C09h':'after','C10h':'frozen','C11h':'frozen-other','C13h':'frozen','C14h':'frozen-other','C15h':'after','C16h':'after','C17h':'frozen',
+ 'C18h':'frozen','C19h':'after','C20h':'after',
 }
 seeds = sys.argv[1:] or sorted(d for d in os.listdir('seeded') if os.path.isdir('seeded/'+d))
 out = subprocess.run(['tools/run_seeds.sh'] + seeds, capture_output=True, text=True).stdout
